@@ -237,6 +237,23 @@ func evalC02(c *Ctx, cs *Case) {
 		spellings = []gen.Spelling{s}
 	}
 	fkey := f.String()
+	// dry-run validates names as path elements (C07/C09): it is only a "rendering mode" of this
+	// property for documents whose names are single valid path elements
+	pathOK := true
+	for _, n := range cs.Names {
+		if !pathElem(n) {
+			pathOK = false
+		}
+	}
+	if !pathOK {
+		kept := modes[:0:0]
+		for _, m := range modes {
+			if m.name != "dryrun" {
+				kept = append(kept, m)
+			}
+		}
+		modes = kept
+	}
 	for si, sp := range spellings {
 		sp.Seed = cs.Seed
 		lines := gen.SpellLines(f, sp)
